@@ -81,7 +81,7 @@ def opOf (j : Json) : Except String Op := do
   | "collCopy" => pure (.collCopy (← a))
   | "collLen" => pure (.collLen (← a))
   | "collCount" => pure (.collCount (← a))
-  | "collIsEmpty" => pure (.collIsEmpty (← a) (← optOf natOf (fldOpt j "dbItem")))
+  | "collIsEmpty" => pure (.collIsEmpty (← a))
   | "collContains" => pure (.collContains (← a) (← argNat j "item"))
   | "collLoad" => pure (.collLoad (← a))
   | "collSelect" => pure (.collSelect (← a))
@@ -113,7 +113,7 @@ def jWorld (w : World) : Json :=
 def actionStr : Action → String
   | .loadAttribute => "load attribute" | .readValue => "read value of" | .assign => "assign new value to"
   | .loadCollection => "load collection" | .changeCollection => "change collection" | .loadObject => "load object"
-  | .deleteObject => "delete object" | .changeObject => "change object"
+  | .deleteObject => "delete object" | .changeObject => "change object" | .flushObject => "flush object"
 
 def jRv : Rv → Json
   | .none => .null
